@@ -138,7 +138,11 @@ def searchsorted(bin_locations, inputs, eps=1e-6):
     # Work on a copy: the caller's bin locations must not be modified.
     bin_locations = bin_locations.clone()
     bin_locations[..., -1] += eps
-    return torch.sum(inputs[..., None] >= bin_locations, dim=-1) - 1
+    idx = torch.sum(inputs[..., None] >= bin_locations, dim=-1) - 1
+    # For large edges eps is below the floating-point resolution (e.g. 32 + 1e-6 == 32 in
+    # float32), so an input equal to the last edge would get index num_bins: keep it in the
+    # last bin.
+    return torch.clamp(idx, max=bin_locations.shape[-1] - 2)
 
 
 def cbrt(x):
